@@ -29,7 +29,8 @@ const c08LongDelay = 3 * time.Second
 
 type c08Case struct {
 	Comp        string `json:"composition"`
-	Source      string `json:"source"` // ctx | deadline | timeout | async
+	Source      string `json:"source"`                 // ctx | deadline | timeout | async
+	CustomCause bool   `json:"custom_cause,omitempty"` // ctx/deadline built with context.With*Cause and a caller-defined cause
 	Async       bool   `json:"async"`
 	Trigger     string `json:"trigger"` // before | fn.enter | sched | fn.exit | time
 	K           int    `json:"k"`
@@ -45,6 +46,7 @@ var c08Comps = []string{"retry", "retry", "retry>cb", "retry>bh", "fallback>retr
 func genC08(r *rand.Rand) c08Case {
 	cs := c08Case{Comp: c08Comps[r.IntN(len(c08Comps))], Source: vk.Pick(r, "ctx", "ctx", "deadline", "timeout", "async", "async")}
 	cs.Async = cs.Source == "async" || r.IntN(3) == 0
+	cs.CustomCause = r.IntN(4) == 0
 	cs.FailN = r.IntN(3)
 	cs.Micro = int64(r.IntN(200)) * 1000
 	waiting := strings.Contains(cs.Comp, "!")
@@ -236,14 +238,25 @@ func c08Run(cs c08Case, twin bool) *c08Obs {
 	if !twin {
 		switch cs.Source {
 		case "ctx":
+			if cs.CustomCause {
+				// the caller attaches its own cause: the execution must still report context.Canceled (ctx.Err())
+				c2, c := context.WithCancelCause(ctx)
+				ctx, cancelCtx = c2, func() { c(errCustomCause) }
+				break
+			}
 			var c context.CancelFunc
 			ctx, c = context.WithCancel(ctx)
 			cancelCtx = c
 		case "deadline":
 			var c context.CancelFunc
-			if cs.DeadlineNs < 0 {
+			switch {
+			case cs.DeadlineNs < 0 && cs.CustomCause:
+				ctx, c = context.WithDeadlineCause(ctx, time.Now().Add(-time.Second), errCustomCause)
+			case cs.DeadlineNs < 0:
 				ctx, c = context.WithDeadline(ctx, time.Now().Add(-time.Second))
-			} else {
+			case cs.CustomCause:
+				ctx, c = context.WithTimeoutCause(ctx, time.Duration(cs.DeadlineNs), errCustomCause)
+			default:
 				ctx, c = context.WithTimeout(ctx, time.Duration(cs.DeadlineNs))
 			}
 			defer c()
@@ -355,7 +368,7 @@ func c08Run(cs c08Case, twin bool) *c08Obs {
 }
 
 func checkC08(rep *vk.Report) {
-	rep.Rule = "scenario = composition containing a retry or hedge policy (plus breaker, free or full bulkhead, exhausted rate limiter, fallback outside or inside) x cancellation source (context cancel, context deadline, enclosing Timeout, async ExecutionResult.Cancel) x event-triggered firing point (before the call, on the k-th function entry with the function then blocking, on the k-th OnRetryScheduled i.e. inside a 3s retry delay, at the k-th function exit i.e. between recording and the next attempt, after a micro delay while waiting for a limiter/bulkhead permit) x sync/async, with yield points between Cancel's two steps and before InitializeRetry perturbed. Each scenario is also run un-cancelled with zero delays (twin). Oracles: result is the cause's error (errors.Is) or exactly the twin's result; no fallback invocation; <=1 function entry after the cancel marker (taken after cancel returned / by a watcher on Done); blocking attempts observe the cancellation; completion earlier than marker + the wait being interrupted (3s delay, 1s limiter, 3s bulkhead). Plus a high-volume stress without yield hooks: Cancel at PRNG instants on endlessly retrying async executions must always give ErrExecutionCanceled. Non-trivial: the cancellation landed before completion; distinct by (composition, source, trigger, k, async, where it landed)."
+	rep.Rule = "scenario = composition containing a retry or hedge policy (plus breaker, free or full bulkhead, exhausted rate limiter, fallback outside or inside) x cancellation source (context cancel, context deadline, enclosing Timeout, async ExecutionResult.Cancel) x event-triggered firing point (before the call, on the k-th function entry with the function then blocking, on the k-th OnRetryScheduled i.e. inside a 3s retry delay, at the k-th function exit i.e. between recording and the next attempt, after a micro delay while waiting for a limiter/bulkhead permit) x sync/async, with yield points between Cancel's two steps and before InitializeRetry perturbed. Each scenario is also run un-cancelled with zero delays (twin). Oracles: result is the cause's error (errors.Is) or exactly the twin's result; no fallback invocation; <=1 function entry after the cancel marker (taken after cancel returned / by a watcher on Done); blocking attempts observe the cancellation; completion earlier than marker + the wait being interrupted (3s delay, 1s limiter, 3s bulkhead). Plus Retry(Hedge(fn)) rounds that really hedge and fail, cancelled (context, context with a custom cause, async Cancel) inside the following 3s retry delay: the caller must get the cause. Plus a high-volume stress without yield hooks: Cancel at PRNG instants on endlessly retrying async executions must always give ErrExecutionCanceled. Non-trivial: the cancellation landed before completion; distinct by (composition, source, trigger, k, async, where it landed)."
 	rep.Assumptions = []string{
 		"the cancel marker is never earlier than the true cancellation instant, so counting later function entries cannot over-count",
 		"promptness is judged only against the configured waits: completion >= marker + wait is a violation, between half and full is inconclusive",
@@ -371,13 +384,21 @@ func checkC08(rep *vk.Report) {
 		}
 		c08Scenario(rep, idx, "C08")
 	})
+	vk.Parallel(scale(rep, 600, 30000), 32, func(idx int) {
+		if rep.Skip(1000000 + idx) {
+			return
+		}
+		c08AfterHedgedRound(rep, 1000000+idx)
+	})
 	failsafe.VerifSetYield(nil)
 	cancelStress(rep, "C08", 50000000, scale(rep, 30000, 500000))
 	reportYields(rep)
-	for _, cl := range []string{"landed_inside_function", "landed_in_retry_delay", "landed_in_policy_wait", "landed_at_function_exit", "landed_in_failure_listener", "landed_after_completion", "landed_before_start"} {
+	for _, cl := range []string{"landed_inside_function", "landed_in_retry_delay", "landed_in_policy_wait", "landed_at_function_exit", "landed_in_failure_listener", "landed_after_completion", "landed_before_start", "cancelled_in_retry_delay_after_hedged_round"} {
 		rep.Require(cl, 10)
 	}
 }
+
+var errCustomCause = errors.New("caller-defined cancellation cause")
 
 func c08Cause(cs c08Case) error {
 	switch cs.Source {
